@@ -26,6 +26,21 @@ def _has_keys(seq):
     return False
 
 
+def _late_tsig(seq):
+    """True if some time signature does not sit at tick 0 (bar splitting then often raises BarException: foreign)."""
+    a = observe.raw_abs(seq)
+    if a is not None:
+        return any(m.message_type is MT.TIME_SIGNATURE and m.time != 0 for m in a)
+    r = observe.raw_rel(seq)
+    t = 0
+    for m in r or []:
+        if m.message_type is MT.WAIT:
+            t += m.time
+        elif m.message_type is MT.TIME_SIGNATURE and t != 0:
+            return True
+    return False
+
+
 def _count(seq):
     for lst in (observe.raw_abs(seq), observe.raw_rel(seq)):
         if lst is not None:
